@@ -28,6 +28,24 @@ fn tick(ctx: &mut TimerContext, mem: &mut MemoryImage, c: u64) -> Value {
     json!([(m as u8) | ((s as u8) << 1), ctx.next_mti, ctx.next_sti, isr])
 }
 
+/// Harness self-protection, not timer semantics: a generated history never makes a correct implementation
+/// loop more than `limit` times inside one tick.  If the context's own target has been left so far behind that
+/// the next tick would spin for longer, stop driving it and say so (the Python side reports it).
+fn runaway(ctx: &TimerContext, c: u64, limit: u64) -> Option<Value> {
+    if !ctx.enabled || limit == 0 {
+        return None;
+    }
+    for (name, p, n) in [
+        ("MTI", ctx.mti_period, ctx.next_mti),
+        ("STI", ctx.sti_period, ctx.next_sti),
+    ] {
+        if p > 0 && c >= n && (c - n) / p > limit {
+            return Some(json!({"runaway": [name, c, n]}));
+        }
+    }
+    None
+}
+
 fn run_case(case: &Value) -> Value {
     let enabled = get_bool(case, "enabled", true);
     let mti = get_u64(case, "mti", 0).min(i32::MAX as u64) as i32;
@@ -35,6 +53,7 @@ fn run_case(case: &Value) -> Value {
     let mut ctx = TimerContext::new(enabled, mti, sti);
     let mut mem = MemoryImage::new();
     mem.write_internal_byte(ISR, get_u64(case, "isr0", 0) as u8);
+    let limit = get_u64(case, "runaway", 0);
     let mut last: u64 = 0;
     let mut obs: Vec<Value> = Vec::new();
     let empty = Vec::new();
@@ -42,6 +61,13 @@ fn run_case(case: &Value) -> Value {
     for op in ops {
         let verb = op.get(0).and_then(|v| v.as_str()).unwrap_or("");
         let arg = op.get(1).and_then(|v| v.as_u64()).unwrap_or(0);
+        if verb == "t" || verb == "b" {
+            let c = if verb == "t" { arg } else { last + 1 };
+            if let Some(r) = runaway(&ctx, c, limit) {
+                obs.push(r);
+                break;
+            }
+        }
         match verb {
             "t" => {
                 last = arg;
